@@ -1,5 +1,5 @@
 // C18 (b): the environment readers parse totally (Engine B, input enumeration).
-// Every string of per-reader generators (grammar-directed seeds plus all single - thorough: double -
+// Every string of per-reader generators (grammar-directed seeds plus all single and restricted double - thorough: all double -
 // point mutations) is put into the environment and read through the real Get*EnvironmentVariable
 // functions, crossed with the environment answer "errno on entry" in {0, ERANGE}. A three-valued
 // reference classifies each string as documented syntax (must be accepted with the exact value),
@@ -11,7 +11,10 @@
 #include <cstdlib>
 #include <fcntl.h>
 #include <limits>
+#include <map>
+#include <set>
 #include <sys/syscall.h>
+#include <sys/wait.h>
 #include <unistd.h>
 
 #include <opentelemetry/sdk/common/disabled.h>
@@ -34,17 +37,28 @@ struct Input {
 };
 std::string show(const Input &in) { return in.set ? "'" + vfq::printable(in.s, 60) + "'" : std::string("<unset>"); }
 
+bool g_thorough = false;
+std::map<const void *, std::set<std::string>> g_seen;  // per list: strings already added
 void add(std::vector<Input> &v, const std::string &s) {
   if (s.find('\0') != std::string::npos) return;  // cannot be put into the environment
-  for (auto &e : v)
-    if (e.set && e.s == s) return;
+  if (!g_seen[&v].insert(s).second) return;
   v.push_back({true, s});
 }
+// wide lists are picked in two levels (a pick has at most 60000 alternatives)
+const Input &pick_input(vf::Ctx &c, const std::vector<Input> &v) {
+  const size_t kChunk = 50000;
+  size_t chunks = (v.size() + kChunk - 1) / kChunk;
+  size_t ch = chunks > 1 ? (size_t)c.pick("chunk", (int)chunks) : 0;
+  size_t n = ch + 1 < chunks ? kChunk : v.size() - ch * kChunk;
+  return v[ch * kChunk + (size_t)c.pick("input", (int)n)];
+}
+// all single point mutations of `seed`, each followed by every second point mutation over the small class set
+// `classes2` (thorough, seeds of at most 4 bytes: over the full class set); twice = false: single mutations only
 void add_mut(std::vector<Input> &v, const std::string &seed, const std::string &classes, bool twice, const std::string &classes2) {
   for (auto &m : vfq::mutations(seed, classes)) {
     add(v, m);
     if (twice)
-      for (auto &m2 : vfq::mutations(m, classes2)) add(v, m2);
+      for (auto &m2 : vfq::mutations(m, g_thorough && seed.size() <= 4 ? classes : classes2)) add(v, m2);
   }
 }
 bool is_sp(char c) { return c == ' ' || c == '\t' || c == '\n' || c == '\v' || c == '\f' || c == '\r'; }
@@ -81,6 +95,7 @@ std::string ci_lower(std::string s) {
 std::vector<Input> g_bool, g_uint, g_dur, g_float, g_str;
 
 void build_inputs(bool thorough) {
+  g_thorough = thorough;
   // ---- booleans: every letter case of the two words, junk, mutations -------------------------
   g_bool.push_back({false, ""});
   add(g_bool, "");
@@ -91,7 +106,7 @@ void build_inputs(bool thorough) {
       for (size_t i = 0; i < word.size(); ++i) if (m & (1u << i)) x[i] = (char)(x[i] - 'a' + 'A');
       add(g_bool, x);
     }
-    add_mut(g_bool, word, "tT1 \x80", thorough, "e ");
+    add_mut(g_bool, word, "tT1 \x80", true, "e ");
   }
   for (const char *j : {" ", "1", "0", "yes", "no", "on", "off", "t", "f", "truefalse", "true,false", "true\n", "\ttrue", "TRUE ", "tr ue", "\xff", "enabled"}) add(g_bool, j);
 
@@ -102,8 +117,8 @@ void build_inputs(bool thorough) {
                         "--1", "+-1", "+ 1", "0x10", "0X1F", "0x", "1e3", "1.0", "1,000", "1_000", "abc", "12abc", "4294967295x", "-18446744073709551615", "-18446744073709551614",
                         "-18446744069414584321", "-18446744069414584320", "-18446744073709551616", "-4294967295", "\xd9\xa1\xd9\xa2", "\xff" "1", "1\xff", "٣"})
     add(g_uint, j);
-  add_mut(g_uint, "42", "09 +-xa.\x80", thorough, "0 -");
-  add_mut(g_uint, "4294967295", "09 +-x\x80", thorough, "0 -");
+  add_mut(g_uint, "42", "09 +-xa.\x80", true, "0 -");
+  add_mut(g_uint, "4294967295", "09 +-x\x80", true, "0 -");
   add_mut(g_uint, "18446744073709551615", "09-", false, "");
 
   // ---- durations -----------------------------------------------------------------------------
@@ -119,8 +134,8 @@ void build_inputs(bool thorough) {
   for (const char *j : {" 5s", "\t5s", "5 s", "5s ", "5 ", " 5", "5\ts", "\n5s", "+5s", "-5s", "+5", "-5", "-0s", "+0s", "- 5s", "5x", "5sec", "5S", "5MS", "5Ms", "5mS", "5 ms", "5d", "5hh", "5ms5",
                         "5.5s", "5,5s", "5e3s", "0x5s", "s", "ms", "h", " ", "5\xc2\xb5s", "5n", "5u", "5nss", "5sm", "5s\n", "\xff", "5\xff", "1h30m", "1:30", "ms5"})
     add(g_dur, j);
-  add_mut(g_dur, "15ms", "09 +-smx.\x80", thorough, "0 s");
-  add_mut(g_dur, "20s", "09 +-smhx\x80", thorough, "0 s");
+  add_mut(g_dur, "15ms", "09 +-smx.\x80", true, "0 s");
+  add_mut(g_dur, "20s", "09 +-smhx\x80", true, "0 s");
   for (const char *j : {"9223372036854775806ns", "9223372036854775799ns", "19223372036854775807ns", "92233720368547758070ns", "2562047h ", "25620470h", "02562047h"}) add(g_dur, j);
 
   // ---- floats ----------------------------------------------------------------------------------
@@ -133,8 +148,8 @@ void build_inputs(bool thorough) {
     add(g_float, j);
   add(g_float, big39);
   add(g_float, tiny);
-  add_mut(g_float, "0.5", "09. e-+x\x80", thorough, "0.e");
-  add_mut(g_float, "12.5", "09. e-+x\x80", thorough, "0.e");
+  add_mut(g_float, "0.5", "09. e-+x\x80", true, "0.e");
+  add_mut(g_float, "12.5", "09. e-+x\x80", true, "0.e");
 
   // ---- strings -----------------------------------------------------------------------------------
   g_str.push_back({false, ""});
@@ -147,7 +162,7 @@ const char *errs(int e) { return e ? "ERANGE" : "0"; }
 
 // ---- GetBoolEnvironmentVariable / GetSdkDisabled ---------------------------------------------------
 void run_bool(vf::Ctx &c, bool via_disabled) {
-  const Input &in = c.pick_from("input", g_bool);
+  const Input &in = pick_input(c, g_bool);
   int e = c.pick("errno", 2);
   std::string lc = ci_lower(in.s);
   bool is_true = in.set && lc == "true", is_false = in.set && lc == "false";
@@ -189,7 +204,7 @@ void run_bool(vf::Ctx &c, bool via_disabled) {
 
 // ---- GetUintEnvironmentVariable ------------------------------------------------------------------
 void run_uint(vf::Ctx &c) {
-  const Input &in = c.pick_from("input", g_uint);
+  const Input &in = pick_input(c, g_uint);
   int e = c.pick("errno", 2);
   const uint32_t kSentinel = 0xdeadbeefu;
   if (in.set) setenv(kVar, in.s.c_str(), 1);
@@ -251,7 +266,7 @@ void run_uint(vf::Ctx &c) {
 // ---- GetDurationEnvironmentVariable --------------------------------------------------------------
 void run_duration(vf::Ctx &c) {
   using sysdur = std::chrono::system_clock::duration;
-  const Input &in = c.pick_from("input", g_dur);
+  const Input &in = pick_input(c, g_dur);
   const sysdur kSentinel = sysdur(-123456789);
   // reference parse:  [space]* [+-]? digits+ unit
   bool lead; char sign; std::string rest;
@@ -274,19 +289,63 @@ void run_duration(vf::Ctx &c) {
   // the reference computes in nanoseconds and converts to the clock's tick (identity on this platform)
   bool value_fits = count_fits && count * factor <= kMax;
   sysdur want = value_fits ? std::chrono::duration_cast<sysdur>(std::chrono::nanoseconds((int64_t)(count * factor))) : sysdur(0);
-  // errno on entry is crossed with every input except the overflowing ones (each of those costs a sanitizer
-  // trap and a worker restart on the unrepaired tree, and the duration reader does not look at errno)
-  int e = (syntax && !value_fits) ? 0 : c.pick("errno", 2);
-  // the stage names the class of the input so that a sanitizer trap is attributed to it
-  if (syntax && !count_fits) c.stage("duration:count-overflows-int64");
-  else if (syntax && !value_fits) c.stage("duration:unit-conversion-overflows-int64");
-  else c.stage("GetDurationEnvironmentVariable");
+  // errno on entry is crossed with every input except the overflowing ones (the duration reader does not look
+  // at errno, and each of those costs a process on the unrepaired tree, see below)
+  bool overflowing = syntax && !value_fits;
+  int e = overflowing ? 0 : c.pick("errno", 2);
+  c.stage("GetDurationEnvironmentVariable");
   if (in.set) setenv(kVar, in.s.c_str(), 1);
   else unsetenv(kVar);
-  errno = e ? ERANGE : 0;
   c.step();
   sysdur val = kSentinel;
-  bool ret = sdkcommon::GetDurationEnvironmentVariable(kVar, val);
+  bool ret = false;
+  if (!overflowing) {
+    errno = e ? ERANGE : 0;
+    ret = sdkcommon::GetDurationEnvironmentVariable(kVar, val);
+  } else {
+    // A value that does not fit the tick count: on the unrepaired tree the arithmetic overflows, which the build
+    // turns into a sanitizer trap. The call runs in a child forked here so that the trap becomes an oracle failure
+    // that names the input (and the replay shows the sanitizer report) instead of an anonymous worker crash.
+    int fds[2];
+    c.check(pipe(fds) == 0, "C18:harness", "pipe failed");
+    fflush(stdout);
+    fflush(stderr);
+    pid_t pid = fork();
+    c.check(pid >= 0, "C18:harness", "fork failed");
+    if (pid == 0) {
+      close(fds[0]);
+      if (!c.tracing()) { int nul = open("/dev/null", O_WRONLY); if (nul >= 0) dup2(nul, 2); }
+      errno = 0;
+      sysdur v = kSentinel;
+      bool r = sdkcommon::GetDurationEnvironmentVariable(kVar, v);
+      long long out[2] = {r ? 1 : 0, (long long)v.count()};
+      if (write(fds[1], out, sizeof out) != (ssize_t)sizeof out) _exit(3);
+      _exit(0);
+    }
+    close(fds[1]);
+    long long out[2] = {0, 0};
+    ssize_t got = 0;
+    for (;;) {
+      ssize_t n = read(fds[0], reinterpret_cast<char *>(out) + got, sizeof out - (size_t)got);
+      if (n > 0) got += n;
+      else if (n == 0 || errno != EINTR) break;
+    }
+    close(fds[0]);
+    int st = 0;
+    while (waitpid(pid, &st, 0) < 0 && errno == EINTR) {}
+    unsetenv(kVar);
+    if (!(WIFEXITED(st) && WEXITSTATUS(st) == 0) || got != (ssize_t)sizeof out) {
+      std::string what = vf::sfmt("GetDurationEnvironmentVariable(%s) did not return: %s %d (signed integer overflow trapped by the sanitizer; replay shows the report) - ", show(in).c_str(),
+                                  WIFSIGNALED(st) ? "signal" : "exit status", WIFSIGNALED(st) ? WTERMSIG(st) : WEXITSTATUS(st));
+      if (!count_fits) c.report("C18:duration:signed-overflow:digit-accumulation", what + "the count does not fit 64 bits, `result * 10 + digit` overflows (undefined behaviour, wrapped value without the sanitizer)");
+      else c.report("C18:duration:signed-overflow:unit-conversion", what + "the count fits but its conversion to clock ticks overflows in duration_cast (undefined behaviour, wrapped value without the sanitizer)");
+      c.state("T|trap");
+      c.outcome(std::string("T|trap|") + (count_fits ? "unit" : "count"));
+      return;
+    }
+    ret = out[0] != 0;
+    val = sysdur(out[1]);
+  }
   unsetenv(kVar);
   std::string ctx = vf::sfmt("GetDurationEnvironmentVariable(%s, errno on entry %s) returned %d, value %lld ticks", show(in).c_str(), errs(e), (int)ret, (long long)val.count());
   bool is_default = !ret && (val == sysdur(0) || val == kSentinel);
@@ -338,7 +397,7 @@ bool strict_decimal(const std::string &s) {  // digits+ ( '.' digits+ )?
 bool same_float(float a, float b) { return (std::isnan(a) && std::isnan(b)) || (a == b && std::signbit(a) == std::signbit(b)); }
 
 void run_float(vf::Ctx &c) {
-  const Input &in = c.pick_from("input", g_float);
+  const Input &in = pick_input(c, g_float);
   int e = c.pick("errno", 2);
   const float kSentinel = -12345.5f;
   // reference values, computed before errno is set for the call under test
@@ -408,7 +467,7 @@ void run_float(vf::Ctx &c) {
 
 // ---- GetStringEnvironmentVariable ----------------------------------------------------------------
 void run_string(vf::Ctx &c) {
-  const Input &in = c.pick_from("input", g_str);
+  const Input &in = pick_input(c, g_str);
   int e = c.pick("errno", 2);
   if (in.set) setenv(kVar, in.s.c_str(), 1);
   else unsetenv(kVar);
